@@ -161,6 +161,8 @@ static void child_run(void *a_)
             if (T->role == MX_CLIENT && (t == 1 || t == 16 || t == 15)) must = 1;
         }
         if (a->ev->ev == EV_AUTH_TYPE) must = 1;
+        /* a corrupted record on a connection whose handshake is complete cannot be anything but a fatal error over TCP (every record is protected) */
+        if (a->ev->ev == EV_CORRUPT && matrixSslHandshakeIsComplete(T->ssl)) must = 1;
         if (a->ev->ev == EV_AUTH_ALERT && a->ev->arg == 2 && T->nAlertIn == alertsBefore) must = 1;
         /* A TLS 1.3 server that rejected the offered early data skips records it cannot deprotect until the client's handshake flight arrives
            (RFC 8446 4.2.10): a record sealed under the client's early-data key is such a record, whatever it contains. */
